@@ -235,6 +235,14 @@ class _Canon(ast.NodeTransformer):
 
     def visit_Compare(self, n):
         self.generic_visit(n)
+        # S35 chained comparison -> conjunction of its links (interior operands pure, so evaluating them twice changes nothing)
+        if len(n.ops) > 1 and U(n) not in self.cmp and all(_pure(e) for e in n.comparators[:-1]):
+            import copy as _c6
+            operands = [n.left] + list(n.comparators)
+            links = [ast.Compare(left=_c6.deepcopy(operands[i]), ops=[type(n.ops[i])()], comparators=[_c6.deepcopy(operands[i + 1])])
+                     for i in range(len(n.ops))]
+            self.steps.append('S35 ' + U(n)[:60])
+            return self.visit(_relocate(ast.BoolOp(op=ast.And(), values=links), n))
         if len(n.ops) == 1 and isinstance(n.ops[0], (ast.Lt, ast.LtE, ast.Gt, ast.GtE)) and isinstance(n.left, ast.Tuple) \
                 and isinstance(n.comparators[0], ast.Tuple) and len(n.left.elts) == len(n.comparators[0].elts) >= 2 \
                 and U(n) not in self.cmp and all(_pure(e) for e in n.left.elts + n.comparators[0].elts):
@@ -329,8 +337,23 @@ class _Canon(ast.NodeTransformer):
                     and isinstance(n.operand.operand.op, ast.Not):
                 self.steps.append('S1 ' + U(n))
                 return self.visit_UnaryOp(n.operand.operand)
-            # S2
+            # S36 De Morgan over comparisons, when every inverted link is a comparison the reference makes
             c = n.operand
+            if isinstance(c, ast.BoolOp) and U(n) not in self.tests and all(
+                    isinstance(v, ast.Compare) and len(v.ops) == 1 and type(v.ops[0]) in INVERT for v in c.values):
+                invs = [ast.Compare(left=v.left, ops=[INVERT[type(v.ops[0])]()], comparators=v.comparators) for v in c.values]
+
+                def known(v):
+                    if U(v) in self.cmp:
+                        return True
+                    if type(v.ops[0]) in MIRROR:
+                        return U(ast.Compare(left=v.comparators[0], ops=[MIRROR[type(v.ops[0])]()], comparators=[v.left])) in self.cmp
+                    return False
+                if all(known(v) for v in invs):
+                    dual = ast.Or() if isinstance(c.op, ast.And) else ast.And()
+                    self.steps.append('S36 ' + U(n)[:60])
+                    return self.visit(_relocate(ast.BoolOp(op=dual, values=invs), n))
+            # S2
             if isinstance(c, ast.Compare) and len(c.ops) == 1 and type(c.ops[0]) in INVERT and U(n) not in self.tests:
                 inv = ast.copy_location(ast.Compare(left=c.left, ops=[INVERT[type(c.ops[0])]()], comparators=c.comparators), n)
                 if U(inv) in self.cmp or U(inv) in self.tests:
@@ -407,6 +430,21 @@ class _Canon(ast.NodeTransformer):
                 new = ast.If(test=ie.test, body=[mk(ie.body)], orelse=[mk(ie.orelse)])
                 _relocate(new, st)
                 self.steps.append('S16 ' + U(st)[:60])
+                out.append(new)
+                continue
+            # S16b  T = A if c else B  ->  if c: T = A else: T = B   (same for return); same evaluation order: test, value, target
+            if isinstance(st, (ast.Assign, ast.Return)) and isinstance(st.value, ast.IfExp) and U(st) not in self.stmt_set \
+                    and (isinstance(st, ast.Return) or len(st.targets) == 1):
+                import copy as _c7
+                ie = st.value
+
+                def mk2(e):
+                    if isinstance(st, ast.Return):
+                        return ast.Return(value=e)
+                    return ast.Assign(targets=[_c7.deepcopy(st.targets[0])], value=e)
+                new = ast.If(test=ie.test, body=[mk2(ie.body)], orelse=[mk2(ie.orelse)])
+                _relocate(new, st)
+                self.steps.append('S16b ' + U(st)[:60])
                 out.append(new)
                 continue
             out.append(st)
